@@ -41,7 +41,7 @@ CHECKS = {
     "-(grad f + grad g y) within `tolerance` of N_C(x) componentwise, dist(g(x), D) <= dual_tolerance and complementary multipliers; the composed models are tied to the real ALMSolver over PANOC / ZeroFPR / PANTR / FISTA and over PANOC with the four shipped direction providers by whole-run correspondence (every callback of every inner solve). Plus the chain of links: ALM Converged <=> last inner solve Converged with eps <= tolerance and ||e||inf <= dual tolerance (model of alm.tpp, all inner-outcome scripts); inner Converged <=> eps <= tol (generated chain); "
     "ApproxKKT residual <= tol => -grad psi(x_hat) within tol of the normal cone of C at x_hat componentwise (any box, any step size); g(x_hat) - e in D so dist(g, D) <= |e|; positive (negative) multiplier only where g - ub = e (g - lb = e); the library's KKT-error stationarity is a lower bound of that distance. "
     "Oracle: for every ALM run returning Converged over all 10 shipped stacks the three KKT quantities are recomputed from f, grad f, g, grad g*y and the boxes only and compared with the tolerances and with compute_kkt_error; prox-step kernel correspondence on the run records.",
-    "4/C01", TB_REALS + CORR + "for StructuredLBFGS / Anderson providers under ALM the dimension obligations of the generic theorem are hypotheses (those stacks are tied by the composed whole-run correspondence); ZeroFPR with shipped providers is not composed under ALM; l1 off; for m = 0 the theorem needs tolerance > 0 (the code replaces a non-positive inner tolerance by 1e-8).",
+    "4/C01", TB_REALS + CORR + "end-to-end theorems exist for ALM over PANOC and ZeroFPR with each of the four shipped direction providers, and over PANTR / FISTA with oracle directions (PANTR's NewtonTR provider is tied by PantrDir.v's refinement but not composed under ALM); l1 off; for m = 0 the theorem needs tolerance > 0 (the code replaces a non-positive inner tolerance by 1e-8).",
     "Coq end-to-end proof on the composed ALM o PANOC model (whole-run correspondence with the real stack) + proof chain (ALM model, generated chain, normal-cone lemmas) + KKT recomputation oracle on real ALM runs"),
  "C02": C("proof",
     "PARTIAL. Proved for all strongly convex QPs, boxes and dimensions: an approximate KKT pair with tolerances (eps, delta) - what Converged certifies (C01) - satisfies mu|x-x*|^2 <= eps|x-x*|_1 + delta|y-y*|_1 against the exact KKT pair (monotonicity of box normal cones, Hoelder). "
@@ -74,14 +74,16 @@ CHECKS = {
     "Coq induction over inner-outcome scripts + trace correspondence against ALMSolver<ScriptedInner>"),
  "C08": C("proof",
     "The momentum update, extrapolation, QUB test and backtracking kernels are TRANSLATED from fista.tpp into Gallina on every run; theorems over R about the generated kernels: t(t-1)=t_prev^2, t_k >= (k+2)/2, prox-gradient key inequality (box, l1, box+l1), potential decrease per loop pass incl. backtracking, the full rate F(x_hat_k)-F* <= 2|x0-x*|^2/(gamma_k (k+1)^2) for fixed and backtracked L, and monotone O(1/k) without acceleration. "
-    "Per-iteration correspondence of the loop model at binary64; oracle: the bound at every k on real runs incl. the Nesterov chain.",
+    "The rate theorems are ALSO proved on FistaLoop.v, the whole-loop model of FISTASolver::operator() (every progress record of every run, all Lipschitz modes, l1, m = 0 and m > 0, any stop criterion: C08_fistaloop_rate etc.), which is tied to the code by whole-run correspondence. "
+    "Per-iteration correspondence of the loop model at binary64; oracle: the bound at every k on real runs incl. the Nesterov chain and on every record of the whole runs.",
     "4/C08", TB_REALS + "translator translate/gen_C08_fista.py (restricted expression grammar, out-of-grammar reported); convexity and descent lemma are Section hypotheses; hand loop skeleton (m=0) tied by correspondence.",
-    "Translator-generated kernels + Coq rate proof + per-iteration correspondence + rate oracle"),
+    "Translator-generated kernels + Coq rate proofs (skeleton and whole-loop model) + per-iteration and whole-run correspondence + rate oracle"),
  "C09": C("proof",
     "16 theorems: ring-buffer refinement to a bounded history for ALL op sequences and memories (update, forced update, apply, apply_masked, reset, resize, scale_y; iteration orders), update stored iff documented acceptance test, two-loop recursion = dense BFGS operator of the history (over R), symmetric, secant equation, positive definite under enforced curvature, masked apply = restricted construction and leaves the stored history and rho untouched (after repo fix 9c14560e5 the full-history theorem needs no hypothesis about apply_masked), scale_y = dense rescale. "
+    "lbfgs.tpp is TRANSLATED on every run (LbfgsGen.v: update_valid, the loop bodies of apply / apply_masked, update_sy_impl, scale_y, ring orders; proved equal to the model incl. whole runs, LbfgsGenEq.v; run at binary64 against the implementation); the direction providers built on it are modelled inside the PANOC/ZeroFPR loop models (Directions.v) and compared on whole solver runs. "
     "Correspondence on whole op sequences through the public API; oracle: exact-rational dense BFGS.",
     "4/C09", TB_REALS + CORR + "std::pow is a Section variable; the NaN exclusion mark of apply_masked is a boolean flag over R (a genuine NaN at binary64).",
-    "Coq refinement + operator algebra proofs + op-sequence correspondence + exact-rational oracle"),
+    "Translator-generated L-BFGS code + Coq refinement + operator algebra proofs + op-sequence correspondence + exact-rational oracle"),
  "C10": C("proof",
     "20 theorems: ring-index invariant and iterator enumeration for every add/remove/reset history within capacity (nat), Givens formulas give a rotation, Q triu(R) = A preserved by add (any number of reorthogonalisation passes), remove (Givens sweep over the rotated R) and scale_R for all histories, Anderson coefficients sum to 1 and the output is the affine combination. PARTIAL: orthonormality of Q, least-squares optimality of solve_col and the Anderson window content are checked numerically by the oracle only. "
     "Correspondence: the model threads its own state over whole histories at binary64.",
@@ -92,7 +94,7 @@ CHECKS = {
     "NewtonTRDirection (incl. the finite-difference Hessian-vector path) is modelled as a state machine inside the PANTR loop (DirectionsTR.v, PantrDir.v): PANTRDIR_newtontr_step_is_feasible_and_beats_cauchy composes these guarantees with the loop (every direction call of every run); whole runs of the real PANTRSolver<NewtonTRDirection> agree with the model at binary64. "
     "Correspondence at binary64 incl. Hessian-product counts; oracle with an independent Cauchy value (also on every recorded direction call of the whole runs).",
     "4/C11", TB_REALS + CORR + "the composition takes symmetric linearity of the (finite-difference) reduced operator as a hypothesis; known finding C11:alpha-overflow-nan-step (deliberate NaN signalling on overflow of alpha).",
-    "Coq proofs over R for arbitrary symmetric operators (kernel and composed with the PANTR loop model) + direct-call and whole-run correspondence + Cauchy oracle"),
+    "Translator-generated Steihaug CG code + Coq proofs over R for arbitrary symmetric operators (kernel and composed with the PANTR loop model) + direct-call and whole-run correspondence + Cauchy oracle"),
  "C12": C("proof",
     "12 theorems: index sets J/K sorted and partition [0,n) for every mask; storage and qr layouts tile their buffers for all dimensions; forward cost = sum of stage costs + penalties along the roll-out for arbitrary f,h,l,c; backward sweep = transposed linearisation (adjoint identity for every perturbation, by induction on N, incl. penalty terms); Riccati factor+solve satisfies the KKT system of the masked equality-constrained QP for every horizon and mask (PARTIAL: stationarity, not minimality). "
     "Correspondence (teacher-forced problem functions) and oracle: independent roll-out, complex-step gradient, dense KKT solve, both factorisations, all 2^nu masks.",
